@@ -25,14 +25,16 @@ Arity(c)    == CASE c = "rec1" -> 1 [] c = "rec2" -> 2 [] c = "rec3" -> 3 [] c =
 Variadic(c) == c \in {"recv1", "recv0", "jf", "sw"}          \* a jet.Func accepts any number of arguments
 Shapes == {"plain", "colon", "pipe", "pipecolon", "pipeparen", "slot", "slot2"}
 
-\* explicit arguments are the atoms a1, a2, ...; the piped value is x (or the previous stage's result)
-Explicit(n) == [i \in 1..n |-> "a" \o ToString(i)]
+\* explicit arguments are the atoms a1, a2, ...; the piped value is x (or the previous stage's result).
+\* One explicit argument (index `nest`, 0 = none) may itself be a call, rec1("ak"): it is evaluated - called and
+\* logged - before the call it is an argument of, and its value takes the argument's place
+Explicit(n, nest) == [i \in 1..n |-> IF i = nest THEN "rec1(a" \o ToString(i) \o ")" ELSE "a" \o ToString(i)]
 
 \* the argument vector a stage receives
-ArgVector(shape, n, slot, piped) ==
-  CASE shape \in {"plain", "colon"} -> Explicit(n)
-    [] shape \in {"pipe", "pipecolon", "pipeparen"} -> <<piped>> \o Explicit(n)
-    [] shape \in {"slot", "slot2"} -> [i \in 1..n |-> IF i = slot THEN piped ELSE Explicit(n)[i]]
+ArgVector(shape, n, slot, piped, nest) ==
+  CASE shape \in {"plain", "colon"} -> Explicit(n, nest)
+    [] shape \in {"pipe", "pipecolon", "pipeparen"} -> <<piped>> \o Explicit(n, nest)
+    [] shape \in {"slot", "slot2"} -> [i \in 1..n |-> IF i = slot THEN piped ELSE Explicit(n, nest)[i]]
 
 CountOK(c, k) == IF Variadic(c) THEN k >= Arity(c) ELSE k = Arity(c)
 
@@ -43,10 +45,14 @@ ResultOf(c, args) == c \o "(" \o JoinArgs(args) \o ")"
 
 VARIABLES stages, phase
 vars == <<stages, phase>>
-Stage(c, shape, n, slot) == [c |-> c, shape |-> shape, n |-> n, slot |-> slot]
+Stage(c, shape, n, slot, nest) == [c |-> c, shape |-> shape, n |-> n, slot |-> slot, nest |-> nest]
 
-ValidStage(first, c, shape, n, slot) ==
+ValidStage(first, c, shape, n, slot, nest) ==
   /\ n \in 0..MaxArgs
+  \* a jet.Func is handed its argument EXPRESSIONS (Arguments.Get evaluates on demand, every time it is asked): how
+  \* often a nested call runs is up to the callee, so the contract only speaks about nested calls under the other kinds
+  /\ (c = "jf" => nest = 0)
+  /\ nest \in 0..n /\ (nest # 0 => nest # slot) /\ (shape = "slot2" /\ nest # 0 => nest # (slot % n) + 1)
   /\ (first => shape \in {"plain", "colon"})            \* nothing is piped into the first stage
   /\ (~first => shape \in {"pipe", "pipecolon", "pipeparen", "slot", "slot2"})
   /\ (shape \in {"colon", "pipecolon"} => n >= 1)
@@ -57,14 +63,14 @@ ValidStage(first, c, shape, n, slot) ==
   /\ (IsNoValue(c) => (first /\ shape = "plain" /\ n = 0))
 
 Init == stages = <<>> /\ phase = "grow"
-AddStage(c, shape, n, slot) ==
+AddStage(c, shape, n, slot, nest) ==
   /\ phase = "grow" /\ Len(stages) < 3
-  /\ ValidStage(stages = <<>>, c, shape, n, slot)
+  /\ ValidStage(stages = <<>>, c, shape, n, slot, nest)
   /\ ~(stages # <<>> /\ IsNoValue(stages[Len(stages)].c) /\ IsWriter(c))
-  /\ stages' = Append(stages, Stage(c, shape, n, slot))
+  /\ stages' = Append(stages, Stage(c, shape, n, slot, nest))
   /\ UNCHANGED phase
 Finish == phase = "grow" /\ stages # <<>> /\ phase' = "done" /\ UNCHANGED stages
-Next == Finish \/ \E c \in Callees, sh \in Shapes, n \in 0..MaxArgs, sl \in 0..MaxArgs : AddStage(c, sh, n, sl)
+Next == Finish \/ \E c \in Callees, sh \in Shapes, n \in 0..MaxArgs, sl \in 0..MaxArgs, ne \in 0..MaxArgs : AddStage(c, sh, n, sl, ne)
 Spec == Init /\ [][Next]_vars
 
 \* evaluation of the pipeline: call log and outcome
@@ -75,14 +81,16 @@ RECURSIVE Run(_, _, _, _, _)
 Run(ss, piped, log, wr, wasw) ==
   IF ss = <<>> THEN [ok |-> TRUE, class |-> "", log |-> log, value |-> wr \o (IF wasw \/ piped = Inv THEN "" ELSE piped)]
   ELSE LET s == Head(ss)
-           av == ArgVector(s.shape, s.n, s.slot, piped)
+           av == ArgVector(s.shape, s.n, s.slot, piped, s.nest)
+           \* the nested argument call happens while the arguments are collected, i.e. before the stage's own call
+           lg == IF s.nest = 0 THEN log ELSE Append(log, [c |-> "rec1", args |-> <<"a" \o ToString(s.nest)>>])
        IN IF s.shape = "slot2" THEN [ok |-> FALSE, class |-> "twoslots", log |-> <<>>, value |-> ""]   \* rejected when parsing
           ELSE IF wasw THEN [ok |-> FALSE, class |-> "writerlast", log |-> log, value |-> ""]          \* a SafeWriter stage may only come last
-          ELSE IF IsWriter(s.c) THEN Run(Tail(ss), "", log, wr \o Braced(av), TRUE)
+          ELSE IF IsWriter(s.c) THEN Run(Tail(ss), "", lg, wr \o Braced(av), TRUE)
           ELSE IF IsNoValue(s.c) THEN Run(Tail(ss), Inv, log, wr, FALSE)
           ELSE IF s.c # "jf" /\ (\E i \in 1..Len(av) : av[i] = Inv) THEN [ok |-> FALSE, class |-> "arg-invalid", log |-> log, value |-> ""]
           ELSE IF ~CountOK(s.c, Len(av)) THEN [ok |-> FALSE, class |-> "argcount", log |-> log, value |-> ""]
-          ELSE Run(Tail(ss), ResultOf(s.c, av), Append(log, [c |-> s.c, args |-> av]), wr, FALSE)
+          ELSE Run(Tail(ss), ResultOf(s.c, av), Append(lg, [c |-> s.c, args |-> av]), wr, FALSE)
 
 \* two pipe slots in one call are rejected when the template is parsed, wherever the call sits
 Outcome == IF \E i \in 1..Len(stages) : stages[i].shape = "slot2"
@@ -92,17 +100,20 @@ Done == phase = "done"
 
 \* every stage is called exactly once, in order, when the pipeline succeeds
 Recorded == SelectSeq(stages, LAMBDA st : ~IsWriter(st.c) /\ ~IsNoValue(st.c))
-EachStageOnce == Done /\ Outcome.ok => /\ Len(Outcome.log) = Len(Recorded)
-                                        /\ \A i \in 1..Len(Recorded) : Outcome.log[i].c = Recorded[i].c
+Nested   == SelectSeq(stages, LAMBDA st : st.nest # 0)
+OwnCalls == SelectSeq(Outcome.log, LAMBDA l : ~(l.c = "rec1" /\ Len(l.args) = 1 /\ l.args[1] \in {"a1", "a2", "a3", "a4"}))
+EachStageOnce == Done /\ Outcome.ok => /\ Len(Outcome.log) = Len(Recorded) + Len(Nested)
+                                        /\ (Nested = <<>> => \A i \in 1..Len(Recorded) : Outcome.log[i].c = Recorded[i].c)
 \* a writer anywhere but in the last stage is an error
 WriterOnlyLast == Done => ((\E i \in 1..(Len(stages) - 1) : IsWriter(stages[i].c) /\ \A j \in 1..Len(stages) : stages[j].shape # "slot2")
                            => (~Outcome.ok /\ Outcome.class \in {"writerlast", "argcount"}))
 \* all spellings of one call have one normal form
 FormsAgree == \A c \in Callees, n \in 1..MaxArgs :
-                /\ ArgVector("plain", n, 0, "x") = ArgVector("colon", n, 0, "x")
-                /\ ArgVector("pipecolon", n, 0, "x") = ArgVector("pipeparen", n, 0, "x")
-                /\ ArgVector("pipeparen", n, 0, "x") = <<"x">> \o ArgVector("plain", n, 0, "x")
-                /\ \A k \in 1..n : ArgVector("slot", n, k, "x")[k] = "x"
+                /\ \A ne \in 0..n :
+                     /\ ArgVector("plain", n, 0, "x", ne) = ArgVector("colon", n, 0, "x", ne)
+                     /\ ArgVector("pipecolon", n, 0, "x", ne) = ArgVector("pipeparen", n, 0, "x", ne)
+                     /\ ArgVector("pipeparen", n, 0, "x", ne) = <<"x">> \o ArgVector("plain", n, 0, "x", ne)
+                     /\ \A k \in 1..n : ArgVector("slot", n, k, "x", ne)[k] = "x"
 
 ---------------------------------------------------------------------------
 (* Argument conversion (contract): what a Go parameter of each kind receives. *)
@@ -139,7 +150,16 @@ Builtins == <<
   [name |-> "repeat",    go |-> "strings.Repeat",    args |-> <<"\"ab\"", "0">>],
   [name |-> "replace",   go |-> "strings.Replace",   args |-> <<"\"aXbXc\"", "\"X\"", "\"-\"", "1">>],
   [name |-> "replace",   go |-> "strings.Replace",   args |-> <<"\"aXbXc\"", "\"X\"", "\"-\"", "-1">>],
+  [name |-> "replace",   go |-> "strings.Replace",   args |-> <<"\"aXbXcXd\"", "\"X\"", "\"-\"", "0">>],     \* a limit of 0 replaces nothing
+  [name |-> "replace",   go |-> "strings.Replace",   args |-> <<"\"aXbXcXd\"", "\"X\"", "\"-\"", "2">>],
+  [name |-> "replace",   go |-> "strings.Replace",   args |-> <<"\"ab\"", "\"\"", "\"-\"", "-1">>],          \* an empty pattern matches between runes
   [name |-> "split",     go |-> "strings.Split",     args |-> <<"\"a,b,,c\"", "\",\"">>],
+  [name |-> "split",     go |-> "strings.Split",     args |-> <<"\"héj\"", "\"\"">>],                     \* an empty separator splits into characters
+  [name |-> "split",     go |-> "strings.Split",     args |-> <<"\"\"", "\",\"">>],
+  [name |-> "repeat",    go |-> "strings.Repeat",    args |-> <<"\"\"", "5">>],
+  [name |-> "trimSpace", go |-> "strings.TrimSpace", args |-> <<"\"\"">>],
+  [name |-> "hasPrefix", go |-> "strings.HasPrefix", args |-> <<"\"ab\"", "\"\"">>],
+  [name |-> "hasSuffix", go |-> "strings.HasSuffix", args |-> <<"\"\"", "\"a\"">>],
   [name |-> "trimSpace", go |-> "strings.TrimSpace", args |-> <<"\"  a b \\t\"">>],
   [name |-> "html",      go |-> "html.EscapeString", args |-> <<"\"<a href='x'>&\\\"</a>\"">>],
   [name |-> "url",       go |-> "url.QueryEscape",   args |-> <<"\"a b&c=d/é\"">>],
@@ -155,7 +175,7 @@ Builtins == <<
   [name |-> "array",     go |-> "sliceliteral",      args |-> <<"\"a\"", "iv7">>] >>
 
 \* three-stage pipelines only over the short forms (keeps the enumeration in the thousands)
-Bound == Len(stages) <= 2 \/ \A i \in 1..Len(stages) : stages[i].n <= 1 /\ stages[i].c \in {"rec1", "rec2", "jf", "vm2", "sw", "nilv"}
+Bound == Len(stages) <= 2 \/ \A i \in 1..Len(stages) : stages[i].nest = 0 /\ stages[i].n <= 1 /\ stages[i].c \in {"rec1", "rec2", "jf", "vm2", "sw", "nilv"}
 
 EmitVec == /\ (Emit /\ Done) => PrintT(<<"VEC", ToJson([stages |-> stages, outcome |-> Outcome])>>)
            /\ (Emit /\ stages = <<>> /\ phase = "grow") => PrintT(<<"VEC", ToJson([conv |-> ConvTable, builtins |-> Builtins])>>)
